@@ -21,7 +21,7 @@ func init() {
 	claim("C06", "other",
 		"Static table agreement: for every keyword, punctuator and operator the type the lexer's lookup tables return spells (TokenType.Bytes) exactly the text that selects it. Decides the 'type of a keyword, punctuator or operator token is the one whose canonical spelling equals its text' clause for all table-driven returns; does not decide numeric/string/template/regexp/identifier grammars or maximal munch.",
 		"Only the table-agreement clause is decided.", "constant evaluation of package-level tables over the type-checked AST; table-agreement rules", "DESIGN.md 4/C06",
-		"Decided: Keywords map is a bijection onto the reserved/identifier constant blocks and each value's Bytes() equals its key; op*Tokens maps agree with operatorBytes for the four spelling forms c, c=, cc, cc=; punctuator spellings equal ECMAScript's; Is* bit tests agree with the constant blocks; ASCII identifier tables equal [$_A-Za-z]/[$_0-9A-Za-z]. Not decided: numeric, string, template, regexp and identifier-escape grammars, maximal munch, template nesting (value-level).")
+		"Decided: R-SPELL(js) by abstract interpretation of js.Lexer.Next (every path returning a punctuator/operator type consumed exactly its Bytes()); R-ERRMOVE(js); Keywords map is a bijection onto the reserved/identifier constant blocks and each value's Bytes() equals its key; op*Tokens maps agree with operatorBytes for the four spelling forms c, c=, cc, cc=; punctuator spellings equal ECMAScript's; Is* bit tests agree with the constant blocks; ASCII identifier tables equal [$_A-Za-z]/[$_0-9A-Za-z]. Not decided: numeric, string, template, regexp and identifier-escape grammars, maximal munch, template nesting (value-level).")
 	claim("C14", "other",
 		"Proof by constant evaluation that LenUint is the digit-count ladder (i<10^k -> k for k=1..19, else 20) and LenInt adds exactly one for the sign; the power-of-ten tables hold exactly 10^k. Parsed/printed values are not decided.",
 		"Only LenInt/LenUint and the pow10 tables are decided.", "constant evaluation + SSA shape matching", "DESIGN.md 4/C14",
@@ -33,7 +33,7 @@ func init() {
 	claim("C09", "other",
 		"Static agreement of the html tag-name perfect hash with its table (the raw-text and foreign-content elements are recognised by name for every constant).",
 		"Hash clause only so far.", "constant evaluation of tables", "DESIGN.md 4/C09",
-		"Decided: T-HASH(html). Not decided: token-per-construct conformance, script double-escape automaton, case handling.")
+		"Decided: T-HASH(html); R-TAGSTATE(html) and R-SPELL(html) by abstract interpretation of html.Lexer.Next for both entry values of inTag. Not decided: token-per-construct conformance, script double-escape automaton, case handling.")
 	claim("C17", "other",
 		"Static check that every size increment in the attribute/CDATA escapers equals len(entity)-1 of the entity copied for the same byte and that the entity decodes to the byte escaped, so the output buffer can never be too small and the chosen quote is never emitted raw. Semantic preservation of whitespace/entity replacement is not decided.",
 		"Only the buffer-size/entity-agreement clause is decided.", "AST pattern rules with constant evaluation", "DESIGN.md 4/C17",
@@ -56,18 +56,35 @@ func init() {
 		"Static necessary conditions of three clauses: (ShiftLen) whenever StreamLexer installs a different backing array every field living in the buffer's coordinate system is re-based by the same offset; (Err timing) Err() hides io.EOF exactly while pos < len(buf) and never hides another error; (unfreed tokens intact) bufferPool reuses the current buffer only when tail==0, pos>=len(oldBuf), size<=cap, reuses a pooled block only when inactive, and deactivates a block only once pos passed its length. Chunking independence, the memory bound and token lifetime as such are schedule/history-valued and not decided.",
 		"Coordinate fields are inferred (used as index/bound of z.buf or assigned from such).", "field-coordinate inference + affine offset comparison on SSA; dominator path facts", "DESIGN.md 4/C13",
 		"Decided: R-REBASE, R-STREAMERR, R-POOLREUSE (structural necessary conditions). Not decided: equivalence with a cursor over the whole input for all chunkings, memory bound, token lifetime vs Free (history/schedule-valued).")
-	claim("C01", "other",
-		"(in progress) recursion and cursor-primitive rules", "", "call-graph SCC analysis; affine guards", "DESIGN.md 4/C01", "in progress")
 	claim("C20", "other",
 		"Static non-interference argument over every function of every non-test package: no package-level variable, and no memory reachable by one load from a reference-typed package-level variable (followed through phis, slicing, element/field addressing and module callees that write through a parameter), is written outside package initialisation; no goroutine is started; no unsafe/cgo/atomic; sync only as the audited mutex of binaryReaderSeeker; constructors store no reference to package-level memory into new instances except the audited terminator buffers. With no shared mutable state, instances on disjoint data cannot race under any interleaving and results cannot depend on earlier calls.",
 		"Assumes the Go memory model for disjoint data, race-free standard library callees, and callers not mutating exported variables or shared constant slices handed to them. Aliases that travel through struct fields (e.g. css.Parser.data = endBytes) are followed only one load deep; the append onto such a field is covered by the audited-site note in DESIGN.md.",
 		"who-may-write analysis over SSA (global-rooted address/alias tracking, write-through-parameter summaries)", "DESIGN.md 4/C20",
 		"Decided: R-GLOBALS (one obligation per package-level variable), R-NOSHARE. Not decided: aliasing of package-level byte slices that flows through struct fields across calls (field-sensitive points-to), dynamic race detection.")
+	engNote := "Engine assumptions: the Input primitives behave as their bodies say (checked by R-INPUT); one cursor per lexer instance (objects are identified by type); lexer fields are written only through the analysed methods; A-TMPL (template delimiters contain no NUL)."
+	claim("C01", "other",
+		"Sound abstract interpretation of every Input client (css, html, xml, json, js lexers/parsers, Position, css.IsIdent/IsURLUnquoted, js RegExp and the shebang prefix of js.Parse) over all byte strings: no Peek/Move/MoveRune/Rewind/Lexeme-slice leaves [start, terminator] on any path (R-CURSOR); every loop advances the cursor or is a bounded counter and every non-error token is non-empty (R-PROGRESS); at end of input Next reports the end and keeps reporting it (R-EOF); an error token is never produced silently after consuming input (R-ERRMOVE); an error that is not the end of input consumes input, so continuing after errors terminates (R-ERRSTUCK: eight terminal-error sites of json/xml are recorded known findings). Call-graph rules: every recursion cycle that consumes tokens passes a depth guard, tree-deepening loops carry a counter (R-RECURSE, R-ITERDEEP). The Input primitives themselves are checked by R-INPUT/R-PEEKRUNE.",
+		engNote+" Termination of the JS parser's token loops, index expressions on token data inside the parsers (p.data[0], atRuleName[1]), panics inside the standard library and memory exhaustion are not decided; AST-method nil/assert discipline is decided by R-ASSERT where registered.",
+		"path-sensitive abstract interpretation over SSA (cursor domain: terminator distance, byte sets per look-ahead position, marks with snapshots; callee summaries; partitioned disjuncts; widening) + VTA call-graph SCC analysis", "DESIGN.md 4/C01",
+		"Decided: R-CURSOR, R-PROGRESS, R-EOF, R-ERRMOVE, R-ERRSTUCK, R-RECURSE, R-ITERDEEP, R-INPUT, R-PEEKRUNE. Not decided: JS parser loop termination, data-dependent indexing inside parsers, stdlib panics, memory.")
+	claim("C02", "other",
+		"For every path of the five Next functions: the returned bytes are the result of the Shift() that is the last cursor operation of the call (the token ends at the reported offset; start only advances), non-error tokens are non-empty, css/js never Skip (tokens tile the input up to the first error), html/xml Skip only after moving over whitespace bytes, Text/AttrVal sub-slices are in range, escaping slices are capped (R-INPUT three-index rule). The re-lex idempotence clause and UTF-8 boundaries are not decided.",
+		engNote, "abstract interpretation (cursor engine) + three-index slice rule", "DESIGN.md 4/C02",
+		"Decided: R-TILE, R-PROGRESS(non-empty), R-CURSOR (sub-slice bounds), R-INPUT. Not decided: lexing a token's text again yields the same token (value-level); in-place write allow-list (ToLower / tab->space) is recognised by the engine but not separately enumerated.")
 	claim("C15", "other",
-		"(in progress) who-may-construct rule for parse.Error and offset provenance", "", "who-may-construct / value-origin rules on SSA", "DESIGN.md 4/C15", "in progress")
+		"Every *parse.Error is built by NewError from Position(r, offset) (who-may-construct), every lexer passes its own cursor's Bytes()/Offset(), js.Parse reports Offset()-len(current token), css records cursor offsets; Position itself never over-reads, terminates and never splits a multi-byte character (cursor engine on Position/positionContext). Line/column/context arithmetic is not decided.",
+		engNote, "who-may-construct and value-origin rules on SSA + cursor engine on parse.Position", "DESIGN.md 4/C15",
+		"Decided: R-ERRCTOR, R-CURSOR/R-PROGRESS for Position. Not decided: line/column counting, context elision, caret placement (value-level).")
 	claim("C07", "other",
-		"(in progress) IsIdent/IsURLUnquoted reuse the lexer's scanners", "", "call-shape rule on SSA", "DESIGN.md 4/C07", "in progress")
-	claim("C02", "other", "(in progress) cursor engine", "", "abstract interpretation", "DESIGN.md 4/C02", "in progress")
-	claim("C10", "other", "(in progress)", "", "abstract interpretation", "DESIGN.md 4/C10", "in progress")
-	claim("C11", "other", "(in progress)", "", "abstract interpretation", "DESIGN.md 4/C11", "in progress")
+		"css.IsIdent/IsURLUnquoted delegate to the lexer's own scanners on a fresh lexer and compare the end position with len(arg) (agreement by construction); every path of css.Lexer.Next that returns a fixed-spelling token type (: ; , brackets, ~= |= ^= $= *=, ||, <!--, -->) has consumed exactly that spelling. Identifier/number/url grammars and look-ahead decisions are not decided.",
+		engNote, "call-shape rule on SSA + cursor engine (byte-exact token text on each return path)", "DESIGN.md 4/C07",
+		"Decided: R-REUSE, R-SPELL(css). Not decided: the token grammar beyond fixed spellings (value-level).")
+	claim("C10", "other",
+		"json.Parser.Next: Start/End units spell exactly { } [ ] on every path (R-SPELL); cursor safety and progress are decided under C01. Nesting/State() stack discipline (R-STACK/R-STARTEND) is not yet registered; acceptance of all valid documents and byte-exact reconstruction are not decided.",
+		engNote, "cursor engine (byte-exact token text on each return path)", "DESIGN.md 4/C10",
+		"Decided: R-SPELL(json). Not decided: validity/reconstruction (value-level), container-state typestate.")
+	claim("C11", "other",
+		"xml.Lexer.Next: attribute tokens are returned only when the lexer was inside a tag and stays inside; start-tag tokens enter the tag state, closing tokens leave it, content tokens neither (R-TAGSTATE, for every path, by abstract interpretation with the inTag field tracked); closing tokens spell > /> ?> exactly (R-SPELL). Agreement with encoding/xml is not decided.",
+		engNote, "cursor engine with abstract heap for the inTag field", "DESIGN.md 4/C11",
+		"Decided: R-TAGSTATE(xml), R-SPELL(xml). Not decided: token-per-construct conformance (value-level). Note: an embedded NUL is reported as an error (never a silent end) but is then reported forever: see the C01 known finding.")
 }
